@@ -213,7 +213,7 @@ impl Transport {
             Transport::Tokio(n) => {
                 let (tx, rx) = tokio::sync::mpsc::channel::<M>(*n);
                 (
-                    Box::pin(PollSender::new(tx).sink_map_err(|e| format!("{e:?}"))),
+                    Box::pin(PollSender::new(tx).sink_map_err(|_| "tokio mpsc: channel closed".to_string())),
                     Box::pin(ReceiverStream::new(rx)),
                 )
             }
